@@ -20,7 +20,7 @@ pub struct Cfg {
     pub conn_limit: u32,
 }
 
-pub const RULE: &str = "configuration product --runtime-type {current-thread, multi-thread} x --threads {1,2,8} x --eviction-policy {none, random with --memory-limit 1GiB} (x --max-item-size {1 KiB.., default} x --connection-limit {1,3} in the thorough tier), each a real memcrsd child process on its own loopback port. Every configuration is driven with the same single-connection programs (4 scripted ones aimed at the eviction-policy layer, delayed flush, counters and CAS, then proptest-generated ones) (all implemented opcodes loud/quiet, unimplemented opcodes, TTL 0 only) in the same order; oracle: the response byte stream of every program is identical to that of the first configuration (CAS included). Per configuration: a set whose body equals the item limit is accepted and limit+1 is answered 0x03; of 12 simultaneous connections exactly `connection-limit` answer a noop (the others stay unanswered over a 300 ms grace); 8 connections x 400 pipelined increments of one counter return 3200 distinct values and leave the exact total; real-time probe: set ttl 2 hits immediately and misses after 3.5 s while a ttl-0 item stays. evaluations = configurations x programs. non-trivial = a program with at least 10 requests covering at least 6 opcodes";
+pub const RULE: &str = "configuration product --runtime-type {current-thread, multi-thread} x --threads {1,2,8} x --eviction-policy {none, random with --memory-limit 1GiB} (x --max-item-size {1 KiB.., default} x --connection-limit {1,3} in the thorough tier), each a real memcrsd child process on its own loopback port. Every configuration is driven with the same single-connection programs (4 scripted ones aimed at the eviction-policy layer, delayed flush, counters and CAS, then proptest-generated ones) (all implemented opcodes loud/quiet, unimplemented opcodes, TTL 0 only) in the same order; oracle: the response byte stream of every program is identical to that of the first configuration (CAS included). Per configuration: a set whose body equals the item limit is accepted and limit+1 is answered 0x03; of 12 simultaneous connections exactly `connection-limit` answer a noop (the others stay unanswered over a 300 ms grace); 8 connections x 400 pipelined increments of one counter return 3200 distinct values and leave the exact total; real-time probe: set ttl 2 hits immediately and misses after 3.5 s while a ttl-0 item and a ttl-7 item are still there. evaluations = configurations x programs. non-trivial = a program with at least 10 requests covering at least 6 opcodes";
 pub const ASSUME: &[&str] = &[
     "memcrsd is built from /repo's working tree with cargo's dev profile (overflow checks on) into /verif/harness/target/memcrsd-build",
     "the configuration product is enumerated completely for the listed values only; --port varies per configuration by construction",
@@ -321,6 +321,7 @@ fn ttl_probe_start(p: &Proc) -> Result<(), (String, String)> {
     let mut s = vec![];
     wire::store(wire::SET, b"ttl2", b"x", 0, 2, 1, 0).write_to(&mut s);
     wire::store(wire::SET, b"ttl0", b"y", 0, 0, 2, 0).write_to(&mut s);
+    wire::store(wire::SET, b"ttl7", b"z", 0, 7, 4, 0).write_to(&mut s);
     wire::get(wire::GET, b"ttl2", 3).write_to(&mut s);
     let out = run_program(p.port, &s).map_err(|e| ("ttl_probe".to_string(), e))?;
     let rs = wire::parse_all(&out).map_err(|e| ("ttl_probe".to_string(), e))?;
@@ -333,6 +334,7 @@ fn ttl_probe_end(p: &Proc) -> Result<(), (String, String)> {
     let mut s = vec![];
     wire::get(wire::GET, b"ttl2", 1).write_to(&mut s);
     wire::get(wire::GET, b"ttl0", 2).write_to(&mut s);
+    wire::get(wire::GET, b"ttl7", 3).write_to(&mut s);
     let out = run_program(p.port, &s).map_err(|e| ("ttl_probe".to_string(), e))?;
     let rs = wire::parse_all(&out).map_err(|e| ("ttl_probe".to_string(), e))?;
     let st = |o: u32| rs.iter().find(|r| r.opaque == o).map(|r| r.status);
@@ -341,6 +343,9 @@ fn ttl_probe_end(p: &Proc) -> Result<(), (String, String)> {
     }
     if st(2) != Some(0) {
         return Err(("ttl0_expired".into(), format!("{:?}: an item stored with ttl 0 is gone after 3.5 s", p.cfg)));
+    }
+    if st(3) != Some(0) {
+        return Err(("expiry_not_real_time".into(), format!("{:?}: an item stored with ttl 7 is already gone 3.5 s later (the server clock runs fast)", p.cfg)));
     }
     Ok(())
 }
